@@ -1,9 +1,9 @@
 #!/bin/sh
 # usage: seed_run.sh Cnn [check ids...]  -- apply /verif/seeded/Cnn/patch.diff to /repo, run the checks, undo
-id=$1; shift; checks=${*:-$id}
+id=$1; shift; checks=${*:-$id}; S=${SEEDED:-/verif/seeded}
 cd /repo && git status --short | grep -q . && { echo "/repo not clean"; exit 2; }
-git -C /repo apply /verif/seeded/$id/patch.diff || { echo "patch does not apply"; exit 3; }
+git -C /repo apply $S/$id/patch.diff || { echo "patch does not apply"; exit 3; }
 for c in $checks; do
-  (cd /verif && ./check $c --tier quick > /verif/seeded/$id/check_$c.log 2>&1; echo "$id -> $c rc=$? : $(grep -c '^VIOLATION' /verif/seeded/$id/check_$c.log) violation line(s)"; grep '^VIOLATION' /verif/seeded/$id/check_$c.log | head -3 | cut -c1-260)
+  (cd /verif && ./check $c --tier quick > $S/$id/check_$c.log 2>&1; echo "$id -> $c rc=$? : $(grep -c '^VIOLATION' $S/$id/check_$c.log) violation line(s)"; grep '^VIOLATION' $S/$id/check_$c.log | head -3 | cut -c1-260)
 done
 git -C /repo checkout -- . 
